@@ -33,28 +33,33 @@ def table_check(ctx):
             continue
         c, name, asu, st = parts
         impl[int(c)] = (name, int(asu), bytes.fromhex(st))
-    # translated tables
+    # translated tables (when the translator no longer understands the source, the tie is reported by the caller;
+    # the search for a concrete failing code goes on below against the pinned reference table)
     import gen_tables
-    variants, from_arms, state_arms = gen_tables.parse_errorcodes(os.path.join(build.REPO, "src/errorcodes.rs"))
-    vcode = dict(variants)
-    first_from = {}
-    for c, n in from_arms:
-        first_from.setdefault(c, n)
-    stt = {}
-    for names, s in state_arms:
-        for n in names:
-            stt.setdefault(n, s.encode())
+    try:
+        variants, from_arms, state_arms = gen_tables.parse_errorcodes(os.path.join(build.REPO, "src/errorcodes.rs"))
+    except gen_tables.Unsupported:
+        variants = None
     ctx.corr["evaluations"] += 65536
     ctx.corr["hist"]["table_codes_accepted"] = len(impl)
-    for c in range(65536):
-        t = first_from.get(c)
-        i = impl.get(c)
-        if (t is None) != (i is None):
-            ctx.violation("translator and implementation disagree on ErrorKind::from(%d): %s vs %s" % (c, t, i), "errtab code %d\n" % c, name="tab", found=False)
-            break
-        if i is not None and (i[0] != t or i[1] != vcode[t] or i[2] != stt[t]):
-            ctx.violation("translated table and implementation disagree on code %d: %s vs (%s,%d,%r)" % (c, i, t, vcode[t], stt[t]), "errtab code %d\n" % c, name="tab", found=False)
-            break
+    if variants is not None:
+        vcode = dict(variants)
+        first_from = {}
+        for c, n in from_arms:
+            first_from.setdefault(c, n)
+        stt = {}
+        for names, s in state_arms:
+            for n in names:
+                stt.setdefault(n, s.encode())
+        for c in range(65536):
+            t = first_from.get(c)
+            i = impl.get(c)
+            if (t is None) != (i is None):
+                ctx.violation("translator and implementation disagree on ErrorKind::from(%d): %s vs %s" % (c, t, i), "errtab code %d\n" % c, name="tab", found=False)
+                break
+            if i is not None and (i[0] != t or i[1] != vcode[t] or i[2] != stt[t]):
+                ctx.violation("translated table and implementation disagree on code %d: %s vs (%s,%d,%r)" % (c, i, t, vcode[t], stt[t]), "errtab code %d\n" % c, name="tab", found=False)
+                break
     for c, (name, st) in ref.items():
         i = impl.get(c)
         if i is None or i[0] != name or i[1] != c or i[2] != st:
